@@ -1576,8 +1576,17 @@ def b_isinstance(I, args, kwargs, st, node):
 
 
 def _extreme(I, args, kwargs, st, node, want_max: bool):
+    from .absint import Raised
+
     vals = list(args) if len(args) > 1 else iter_values(I, args[0], st)
-    if vals and all(isinstance(x, (int, str)) and not isinstance(x, bool) for x in vals) and not kwargs:
+    if vals is not None and not vals and len(args) == 1 and set(kwargs) <= {"default"}:
+        if "default" in kwargs:
+            return [(kwargs["default"], st)]
+        return [(Raised("ValueError", node, "max()/min() of an empty sequence"), st)]
+    if "default" in kwargs and len(args) == 1 and vals:
+        kwargs = {k: v for k, v in kwargs.items() if k != "default"}
+    homogeneous = vals and (all(isinstance(x, int) and not isinstance(x, bool) for x in vals) or all(isinstance(x, str) for x in vals))
+    if homogeneous and not kwargs and not (len(args) == 1 and isinstance(args[0], Ref) and st.obj(args[0]).setlike):
         return [((max if want_max else min)(vals), st)]
     hook = I.probes.get("compare")
     if vals and hook is not None and not kwargs and all(isinstance(x, Opaque) for x in vals):
@@ -1912,6 +1921,13 @@ def _ext_count(I, args, kwargs, st, node):
     return [(Unknown("count"), st)]
 
 
+def _ext_newtype(I, args, kwargs, st, node):
+    """typing.NewType(name, tp) is the identity function at run time."""
+    from .absval import LambdaV
+
+    return [(LambdaV(ast.parse("lambda __x: __x", mode="eval").body, {}, None), st)]
+
+
 def _ext_not(I, args, kwargs, st, node):
     """operator.not_(x) == not x."""
     if len(args) != 1:
@@ -2079,6 +2095,8 @@ EXT_CALLS = {
     "ext:re.findall": _ext_re_findall,
     "ext:operator.attrgetter": _ext_attrgetter,
     "ext:operator.not_": _ext_not,
+    "ext:typing.NewType": _ext_newtype,
+    "ext:typing_extensions.NewType": _ext_newtype,
     "ext:itertools.count": _ext_count,
     "ext:operator.truth": _ext_truth,
     "ext:itertools.chain": _ext_chain,
